@@ -74,7 +74,7 @@ CHECKS = {
     "C15": dict(
         engine="corr-pure",
         technique="Coq proof (worklist closure of flag_children; list lemmas for the run/remove sets of update on a chain of states) + correspondence: the real update tool under the selftests' job seam vs Model/Tools.v on a separately parsed state graph",
-        text=("Proved: flag_children reaches exactly the nodes connected through child edges (with/without the start node); on a duplicate-free chain update_runs = the segment from from_state to to_state, both included, update_unsets = exactly what follows to_state. Checked: intertest_setup.update for (from,to) pairs along vm1's states x worker sets runs exactly those tests and removes exactly the states derived from to_state, touches no other vm, and rejects unknown states (made-up names and states that exist only in another vm's graph); updates of 2-3 vms on 2-4 workers (randomly delayed stub tests) execute every path test exactly once across all workers; updates of a vm selected without variant restriction (CentOS and Fedora) execute the path once for every variant. PARTIAL: the state graph given to the model comes from the real parser."),
+        text=("Proved: flag_children reaches exactly the nodes connected through child edges (with/without the start node); on a duplicate-free chain update_runs = the segment from from_state to to_state, both included, update_unsets = exactly what follows to_state. Checked: intertest_setup.update for (from,to) pairs along vm1's states x worker sets runs exactly those tests and removes exactly the states derived from to_state, touches no other vm, and rejects unknown states (made-up names and states that exist only in another vm's graph); a remove set given for one vm (remove_set_<vm>) acts like the same set given for all vms; updates of 2-3 vms on 2-4 workers (randomly delayed stub tests) execute every path test exactly once across all workers; updates of a vm selected without variant restriction (CentOS and Fedora) execute the path once for every variant. PARTIAL: the state graph given to the model comes from the real parser."),
         note=COMMON_NOTE + "The selftests' job seam (mock job, stub run_test_task with random short delays, recording door) stands for the avocado job and the remote state control.",
         design="§5 C15"),
     "C20": dict(
